@@ -36,7 +36,9 @@ REQUIRED = ["Sqfs.C06.confinement", "Sqfs.C06.confinement_raw", "Sqfs.C06.plan_p
             "Sqfs.C06.confinement_under_faults", "Sqfs.C06.main_confinement", "Sqfs.C06.root_not_established_nothing_unpacked",
             "Sqfs.C06.failed_chdir_writes_nothing", "Sqfs.C06.failing_step_ends_run", "Sqfs.C06.failing_mkdir_p_ends_run",
             "Sqfs.C06.success_means_everything_unpacked", "Sqfs.C06.exit_zero_of_all_fine", "Sqfs.C06.skip_reports_exact",
-            "Sqfs.C06.confinement_without_symlinks_below", "Sqfs.C06.main_confinement_weak", "Sqfs.C06.ordByLoc_is_a_fill_order"]
+            "Sqfs.C06.confinement_without_symlinks_below", "Sqfs.C06.main_confinement_weak", "Sqfs.C06.ordByLoc_is_a_fill_order",
+            # the repaired create_node (fixes/C06-mkdir-eexist-lstat.patch): no hypothesis on what R holds
+            "Sqfs.C06.confinement_any_R", "Sqfs.C06.repaired_touches_only_named_paths", "Sqfs.C06.main_confinement_any_R"]
 TRACE = ("mkdir,mkdirat,symlink,symlinkat,mknod,mknodat,open,openat,creat,lsetxattr,setxattr,fsetxattr,utimensat,utimes,"
          "futimesat,utime,fchownat,chown,lchown,fchown,fchmodat,chmod,fchmod,chdir,fchdir,unlink,unlinkat,rename,renameat,"
          "renameat2,link,linkat,truncate,rmdir,removexattr,lremovexattr,chroot,mount")
@@ -47,6 +49,28 @@ CASE_TIMEOUT = 300          # seconds; an idle machine needs ~0.1 s per case
 NOBODY = 65534
 BLOCK = 4096                # block size of the forged images
 RSTATES = ["absent", "empty", "file", "dangling", "link_dir", "link_file", "loop", "populated"]
+# R populated *with symbolic links below it* (left there by an earlier unpack, say): (path below R, target) — the directories on
+# the way are real ones.  `link_hit_tree()` names every one of these paths except `zz_unnamed`.  Targets `../lt_*` / `ABS/lt_*`
+# are decoys in the jail made for this purpose: what appears there came through a link that was in R before the run.
+LINK_STATES = {
+    "lnk_dir1": [(b"a", b"../lt_dir")],                       # directory link at depth 1, 2, 3
+    "lnk_dir2": [(b"d/a", b"../../lt_dir")],
+    "lnk_dir3": [(b"d/e/a", b"../../../lt_dir")],
+    "lnk_abs1": [(b"a", b"ABS/lt_dir")],                       # absolute target
+    "lnk_abs3": [(b"d/e/a", b"ABS/lt_dir/sub")],
+    "lnk_file1": [(b"f", b"../lt_file")],                      # link to a file where the image has a file
+    "lnk_file2": [(b"d/f", b"../../lt_file")],
+    "lnk_filedir1": [(b"a", b"../lt_file")],                   # link to a file where the image has a directory
+    "lnk_dang1": [(b"a", b"nowhere")],                         # dangling, depth 1..3
+    "lnk_dang2": [(b"d/a", b"../nowhere")],
+    "lnk_dang3": [(b"d/e/f", b"../../../lt_dir/new_through_dangling")],   # dangling link at a *file* name: O_EXCL must refuse it
+    "lnk_inner1": [(b"a", b"d")],                              # link that stays inside R
+    "lnk_unnamed": [(b"zz_unnamed", b"../lt_dir"), (b"d/zz_unnamed", b"../../lt_file")],   # paths the image does not name
+    "lnk_many": [(b"a", b"../lt_dir"), (b"d/a", b"../../lt_dir/sub"), (b"f", b"../lt_file"), (b"d/e/a", b"nowhere")],
+}
+RSTATES += sorted(LINK_STATES)
+KNOWN_LINK_ESCAPE = "escape:symlink-below-R"     # the one key under which the tolerated-EEXIST defect is reported (known_findings.d/C06.json)
+MAIN_OP = ["main"]                               # "mainr" when the tree under test has the repaired create_node (probe_variant)
 WRAPPED = ["mkdir", "symlink", "mknod", "open", "open64", "utimensat", "fchownat", "fchmodat", "lsetxattr", "chdir"]
 FAULT_ERRNOS = ["EEXIST", "ENOTSUP", "ENOSYS", "EPERM", "EACCES", "ENOSPC", "EINTR", "EIO", "EROFS", "ENOENT", "ELOOP", "ENOMEM"]
 CLASS_OF = {"mkdir": "mkdir", "symlink": "symlink", "mknod": "mknod", "openx": "open", "opent": "open", "utimens": "utimensat",
@@ -219,6 +243,21 @@ def corpus_builtin():
     return out
 
 
+def link_hit_tree():
+    """a harmless image whose directories and files sit at the paths of LINK_STATES"""
+    N = Node
+    return N(b"", "d", children=[
+        N(b"a", "d", perm=0o750, uid=3, gid=3, mtime=77, xattrs=[(b"user.c06", b"a")], children=[
+            N(b"x", "f", payload=b"through a\n", perm=0o640, uid=3, mtime=78), N(b"sub", "d", children=[N(b"y", "f", payload=b"y\n")])]),
+        N(b"d", "d", children=[
+            N(b"a", "d", mtime=79, children=[N(b"x", "f", payload=b"through d/a\n", uid=4)]),
+            N(b"e", "d", children=[N(b"a", "d", perm=0o700, children=[N(b"x", "f", payload=b"through d/e/a\n"), N(b"l", "l", payload=b"../../../../decoy_file")]),
+                                   N(b"f", "f", payload=b"d/e/f\n", mtime=80)]),
+            N(b"f", "f", payload=b"d/f\n", perm=0o600, uid=5)]),
+        N(b"f", "f", payload=b"f\n", perm=0o644, uid=6, gid=6, mtime=81, xattrs=[(b"user.c06", b"f")]),
+        N(b"top.txt", "f", payload=b"top\n")])
+
+
 def small_trees():
     """small shapes for the unpack-root, unprivileged and fault-injection streams"""
     N = Node
@@ -269,6 +308,9 @@ def make_jail(base, rstate):
     os.mkdir(jail / "start")                         # sentinel: must stay empty
     os.mkdir(jail / "ro")
     os.mkdir(jail / "noexec")
+    os.makedirs(jail / "lt_dir" / "sub")              # where the links of LINK_STATES point
+    (jail / "lt_dir" / "x0").write_bytes(b"was here\n")
+    (jail / "lt_file").write_bytes(b"link target\n")
     R = jail / "R"
     if rstate == "empty":
         os.mkdir(R)
@@ -289,12 +331,19 @@ def make_jail(base, rstate):
         (R / "pd" / "inner").write_bytes(b"inner\n")
         os.mkdir(R / "a")
         (R / "b").write_bytes(b"was here\n")
+    elif rstate in LINK_STATES:
+        os.mkdir(R)
+        (R / "keep").write_bytes(b"keep\n")
+        for rel, tgt in LINK_STATES[rstate]:
+            q = os.fsencode(R) + b"/" + rel
+            os.makedirs(os.path.dirname(q), exist_ok=True)
+            os.symlink(tgt.replace(b"ABS", os.fsencode(jail)), q)
     elif rstate != "absent":
         raise ValueError(rstate)
     os.chmod(jail / "decoy_file", 0o640)
     os.chmod(jail / "decoy_dir", 0o750)
     for p in (jail / "decoy_file", jail / "decoy_dir", jail / "x", outer / "outer_file", jail / "decoy_dir" / "inner", jail / "start",
-              jail / "blocker", jail, outer):
+              jail / "blocker", jail / "lt_file", jail / "lt_dir", jail / "lt_dir" / "sub", jail / "lt_dir" / "x0", jail, outer):
         os.utime(p, ns=(10**18, 10**18))
     return outer, jail
 
@@ -679,7 +728,7 @@ def plan_request(rec):
 def main_request(rec, faults=()):
     root = "~" if rec["rstr_real"] is None else (rec["rstr_real"] or "-")
     fl = ["%d=%s" % (i, e) for i, e in faults]
-    return "main %s %s %s %s %d %s %d %s %s" % (model_flags(rec), rec["upath"] or "-", root, key_of(os.fsencode(rec["cwd"])),
+    return MAIN_OP[0] + " %s %s %s %s %d %s %d %s %s" % (model_flags(rec), rec["upath"] or "-", root, key_of(os.fsencode(rec["cwd"])),
                                                len(rec["fsents"]), " ".join(rec["fsents"]), len(fl), " ".join(fl), " ".join(rec["tokens"]))
 
 
@@ -1188,6 +1237,18 @@ def build_cases(ctx, can_nobody):
             for label, t in rng.sample(small, 2):
                 cases.append(mk_case("root:%s:%s:%s" % (rstate, rstr, label), t, fl, b"/", rstate, rstr, start))
     n["root_shapes"] = len(cases) - k0
+    # R holding symbolic links before the run (directory / file / dangling / absolute / inner links at depth 1..3, links at paths
+    # the image does not name): the image that names those paths with four option sets, -p and no -p, and one other tree
+    k0 = len(cases)
+    lh = link_hit_tree()
+    for rstate in sorted(LINK_STATES):
+        for fl in ("-", "COXT", "T", "CX"):
+            cases.append(mk_case("linked:%s:hit" % rstate, lh, fl, b"/", rstate, b"R", "jail"))
+        cases.append(mk_case("linked:%s:hit:nop" % rstate, lh, "OT", b"/", rstate, None, "jail"))
+        cases.append(mk_case("linked:%s:hit:deep-p" % rstate, lh, "-", b"/", rstate, b"./R/", "start" if False else "jail"))
+        label, t = rng.choice(small)
+        cases.append(mk_case("linked:%s:%s" % (rstate, label), t, rng.choice(ALLFLAGS), b"/", rstate, b"R", "jail"))
+    n["linked_R"] = len(cases) - k0
     k0 = len(cases)
     for label, t in small:
         for fl in ("-", "X", "COXT", "CT"):
@@ -1227,6 +1288,10 @@ def build_cases(ctx, can_nobody):
         rstate, rstr, start = ("empty" if rng.random() < 0.5 else "absent", b"R", "jail")
         if rng.random() < 0.12:
             rstate, rstr, start = rng.choice(ROOT_SHAPES)
+        elif rng.random() < 0.06:
+            rstate, rstr, start = rng.choice(sorted(LINK_STATES)), b"R", "jail"          # random trees often name `a`, `d`, `f`
+            if rng.random() < 0.5:
+                t = Node(b"", "d", children=link_hit_tree().children[:3] + [c for c in t.children if cstr(c.name) not in (b"a", b"d", b"f")])
         priv = "root"
         if can_nobody and not lnk and rng.random() < 0.12:
             priv = "nobody"
@@ -1320,6 +1385,24 @@ def probe_nobody(ctx):
     return ok
 
 
+def through_planted_link(rec):
+    """every change outside R lies at or below jail/lt_dir, jail/lt_file — the targets of the links make_jail put *below R* — and R
+    was in one of the LINK_STATES: the escape went through a link that was there before the run"""
+    if rec["rstate"] not in LINK_STATES or MAIN_OP[0] != "main":
+        return False
+    ok = tuple(rec["jail"] + "/" + x for x in ("lt_dir", "lt_file"))
+    return all(any(c["path"] == o or c["path"].startswith(o + "/") for o in ok) for c in rec["changed"])
+
+
+def probe_variant(ctx, rd):
+    """Which create_node does the tree under test have?  R/a -> ../lt_dir, image with a/x: the current code unpacks through the
+    link (exit 0, lt_dir/x appears); the repaired one (fixes/C06-mkdir-eexist-lstat.patch) fails at `mkdir a` and changes nothing.
+    Anything else is neither: treated as current code, so that the ordinary comparison reports it."""
+    rec = run_case(ctx, rd, 10**6, mk_case("probe:variant", link_hit_tree(), "-", b"/", "lnk_dir1", b"R", "jail"))
+    repaired = rec["rc"] == 1 and not rec["changed"] and not any(c.startswith(("openx:", "opent:")) for c, _ in rec["calls"])
+    return repaired, rec
+
+
 def replay_dict(rec, why):
     return {"why": why, "label": rec["label"], "flags": rec["flags"], "upath": rec["upath"], "rstate": rec["rstate"], "rstr": rec["rstr"],
             "start": rec["start"], "priv": rec["priv"], "fault": rec["fault"],
@@ -1401,7 +1484,16 @@ def judge(ctx, recs, models, plans, stats):
         if rec["skips"] or st != "ok" or any(r != "0" for _, r in rec["calls"][1:]) or rec["fault"] is not None:
             stats["nontrivial"].add(key)
         # 1. the specification, on the implementation: nothing outside R changed
-        if rec["changed"]:
+        if rec["changed"] and through_planted_link(rec):
+            # the recorded defect: create_node tolerates EEXIST from mkdir without looking at what exists, so a symbolic link that
+            # was below R before the run is walked through.  One key for the defect, not one per image; the run is still
+            # compared with the model (which follows the link the same way) below.
+            stats["link_escapes"] += 1
+            if stats["link_escapes"] == 1:
+                ctx.violation(KNOWN_LINK_ESCAPE, "rdsquashfs wrote outside the unpack root through a symbolic link that was below R before the run "
+                              "(create_node tolerates EEXIST from mkdir without lstat): %s" % json.dumps(rec["changed"][:2])[:500],
+                              replay_dict(rec, "jail snapshot differs outside R, below the target of a link planted in R"))
+        elif rec["changed"]:
             stats["nviol"] += 1
             if stats["nviol"] <= 5:
                 ctx.violation("escape:" + key, "rdsquashfs changed objects outside the unpack root: %s" % json.dumps(rec["changed"][:3])[:600],
@@ -1474,6 +1566,11 @@ def run(ctx):
     rd = build_rd(ctx)
     can_nobody = os.geteuid() == 0 and probe_nobody(ctx)
     ctx.log("unprivileged runs (setpriv uid 65534 under strace): %s" % ("possible" if can_nobody else "NOT possible in this sandbox"))
+    repaired, prec = probe_variant(ctx, rd)
+    MAIN_OP[0] = "mainr" if repaired else "main"
+    ctx.log("create_node of the tree under test: %s (probe: rc=%s, changed outside R: %d)" % (
+        "REPAIRED (mkdir/EEXIST accepted only after lstat says directory) - model unpackMainR" if repaired else "current (EEXIST tolerated blindly) - model unpackMain",
+        prec["rc"], len(prec["changed"])))
     cases, ncase = build_cases(ctx, can_nobody)
     ctx.log("cases: " + ", ".join("%d %s" % (v, k) for k, v in ncase.items()))
     recs = run_all(ctx, rd, cases)
@@ -1481,7 +1578,7 @@ def run(ctx):
     models, plans = model_pass(ctx, cases, recs)
     stats = {"hist": {"rc": {}, "model_status": {}, "impl_calls": 0, "skips_reported": 0, "rstate": {}, "priv": {}, "root": {}, "faults": {},
                       "nobody_refusals": {}},
-             "nontrivial": set(), "ndis": 0, "nviol": 0, "nmon": 0, "compared": 0, "complete_checked": 0, "monitored": 0, "monitored_calls": 0, "monitor_skipped": {}}
+             "nontrivial": set(), "ndis": 0, "nviol": 0, "link_escapes": 0, "nmon": 0, "compared": 0, "complete_checked": 0, "monitored": 0, "monitored_calls": 0, "monitor_skipped": {}}
     judge(ctx, recs, models, plans, stats)
     # fault injection: derived from the fault-free runs
     fcases = fault_cases(ctx, cases, recs, models)
@@ -1526,6 +1623,9 @@ def run(ctx):
         "faults_fired": nfired,
         "successful_runs_checked_for_completeness": stats["complete_checked"],
         "unprivileged_runs_possible": can_nobody,
+        "create_node_variant": "repaired (model unpackMainR / op mainr)" if repaired else "current (model unpackMain / op main)",
+        "runs_into_R_with_symlinks_below": sum(v for k, v in stats["hist"]["rstate"].items() if k in LINK_STATES),
+        "escapes_through_a_link_planted_below_R": stats["link_escapes"],
     })
     return ctx.finish(LEVEL, trusted_extra=[
         "abstract POSIX file system of Sqfs/Model/Unpack.lean (path resolution, symlink following, O_EXCL / O_CREAT|O_TRUNC / AT_SYMLINK_NOFOLLOW rules): "
@@ -1548,6 +1648,8 @@ def replay(ctx, path):
     ctx.lean_build(["sqfsmodel"])
     os.chmod(ctx.scratch, 0o755)
     rd = build_rd(ctx)
+    MAIN_OP[0] = "mainr" if probe_variant(ctx, rd)[0] else "main"
+    print("model       :", "unpackMainR (repaired create_node)" if MAIN_OP[0] == "mainr" else "unpackMain (current create_node)")
     rstr = rp.get("rstr", "52")
     case = mk_case(rp.get("label", "replay"), node_from_tokens(rp["tokens"]), rp["flags"], bytes.fromhex(rp["upath"]),
                    rp.get("rstate", "empty" if rp.get("precreate", True) else "absent"), None if rstr is None else bytes.fromhex(rstr),
